@@ -2768,6 +2768,22 @@ def el2(m, run):
     run.ob('EL2.elevation-reduction-exact', '%s :: inadmissible requests' % fe.key, not rej, 'non-positive counts and non-Bezier polygons are rejected' if not rej else
            '; '.join(rej) + ': the request must be rejected, not silently replaced by another one', 'geomdl/helpers.py:%d in %s' % (fe.node.lineno, fe.key))
     fr = m.func('helpers.degree_reduction')
+    rej = []
+    for what, args in (('degree 1', [1, [[Sym('a%d' % i), Sym('b%d' % i)] for i in range(2)]]),
+                       ('3 points for degree 3', [3, [[Sym('a%d' % i), Sym('b%d' % i)] for i in range(3)]]),
+                       ('5 points for degree 3', [3, [[Sym('a%d' % i), Sym('b%d' % i)] for i in range(5)]])):
+        sk = SK(m, ab)
+        sk.exact = True
+        try:
+            sk.call(fr, args, {})
+            rej.append('%s is accepted' % what)
+        except Violation as v:
+            if v.rule != 'RAISE':
+                rej.append('%s fails with `%s` instead of being rejected' % (what, v.msg[:60]))
+        except Unsupported as ex:
+            raise AnalysisError('%s: interpreter met an unsupported construct: %s' % (fr.key, ex))
+    run.ob('EL2.elevation-reduction-exact', '%s :: inadmissible requests' % fr.key, not rej, 'degrees below 2 and non-Bezier polygons are rejected' if not rej else
+           '; '.join(rej) + ': the request must be rejected', 'geomdl/helpers.py:%d in %s' % (fr.node.lineno, fr.key))
     bad, n = [], 0
     for p in range(2, 8):
         n += 1
@@ -4602,3 +4618,64 @@ def ops2_guard(m, run, fname, helper, sign):
                             why = 'the request is rejected only after the shape has been written to (or the helper has run): the object is not left unchanged'
                 run.ob('OPS2.multiplicity-limit-on-abstract-net', key, why is None, 'carried out' if admissible and why is None else ('rejected, shape untouched' if why is None else why),
                        'geomdl/operations.py in operations.%s' % fname)
+
+
+def do3(m, run):
+    """DO3 (the definition protocol): operations.degree_operations with its Bezier pieces and its input being abstract curves whose *real*
+    setters are interpreted (degree, set_ctrlpts with its count-against-degree validation, knotvector with its length / order check):
+    for a curve of one and of two Bezier segments, for elevation by 1 .. p + 2 and for reduction, no setter rejects an intermediate state -
+    i.e. every object gets its new degree first, then its control points, then its knot vector - and every object ends up consistent
+    (count = len(knots) - degree - 1)"""
+    import itertools
+    fi = m.func('operations.degree_operations')
+    bad, n = [], 0
+    for p, npieces in itertools.product((2, 3), (1, 2)):
+        for t in list(range(1, p + 3)) + [-1]:
+            n += 1
+            nd = p + t if t > 0 else p - 1
+
+            def bez(a, b, deg):
+                c = abstract_shape('Curve', 1, (deg,), (deg + 1,), False, [])
+                c._a['_knot_vector'] = [[Ord(a)] * (deg + 1) + [Ord(b)] * (deg + 1)]
+                c._a['_control_points'] = pts(deg + 1, 3, labelled=True)
+                c._a['_iter_index'] = 0
+                return c
+
+            def joined(deg):
+                kv = [Ord(0)] * (deg + 1)
+                for j in range(1, npieces):
+                    kv += [Ord(j)] * deg
+                return kv + [Ord(npieces)] * (deg + 1), npieces * deg + 1
+            pieces = [bez(j, j + 1, p) for j in range(npieces)]
+            kv0, n0 = joined(p)
+            obj = abstract_shape('Curve', 1, (p,), (n0,), False, [])
+            obj._a['_knot_vector'] = [kv0]
+            kv1, n1 = joined(nd)
+            ab = dict(STD_ABSTRACTED)
+            ab[('operations', 'decompose_curve')] = Py(lambda sk, node, o_, *a, **k: list(pieces), 'decompose_curve')
+            ab[('helpers', 'degree_elevation')] = Py(lambda sk, node, degree, cpts, *a, **k: pts(len(cpts) + k.get('num', a[0] if a else 1), 3), 'degree_elevation')
+            ab[('helpers', 'degree_reduction')] = Py(lambda sk, node, degree, cpts, *a, **k: pts(len(cpts) - 1, 3), 'degree_reduction')
+            ab[('_operations', 'link_curves')] = Py(lambda sk, node, *crvs, **k: (list(kv1), pts(n1, 3), [], []), 'link_curves')
+            sk = SK(m, ab)
+            why = None
+            try:
+                sk.call(fi, [obj, [t]], {})
+                for name, c in [('segment %d' % (j + 1), c_) for j, c_ in enumerate(pieces)] + [('the input curve', obj)]:
+                    a = c._a
+                    deg, ncp, nk = a['_degree'][0], len(a['_control_points']), len(a['_knot_vector'][0])
+                    if deg != nd:
+                        why = '%s ends with degree %r, expected %d' % (name, deg, nd)
+                    elif nk != ncp + deg + 1:
+                        why = '%s ends inconsistent: %d control points, degree %d, %d knots' % (name, ncp, deg, nk)
+                    if why:
+                        break
+            except Violation as v:
+                why = ('%s %s' % (v.msg, v.where())) + (' - a setter rejects an intermediate state: degree, control points and knot vector must be assigned in this order' if v.rule == 'RAISE' else '')
+            except Unsupported as ex:
+                raise AnalysisError('%s: interpreter met an unsupported construct: %s' % (fi.key, ex))
+            if why:
+                bad.append(((p, npieces, t), why))
+    run.ob('DO3.definition-protocol-through-the-setters', '%s :: %d (degree, segments, change) cases' % (fi.key, n), not bad,
+           'no setter rejects an intermediate state; every object ends consistent' if not bad else
+           'degree %d, %d segment(s), %s: %s   [%d of %d cases]' % (bad[0][0][0], bad[0][0][1], 'elevation by %d' % bad[0][0][2] if bad[0][0][2] > 0 else 'reduction', bad[0][1], len(bad), n),
+           'geomdl/operations.py:%d in %s' % (fi.node.lineno, fi.key))
